@@ -245,7 +245,15 @@ class ExprBuilder:
             elif k == "constindex":
                 e = ("idx", e, ("c", (-1 - el["offset"]) if el["from_end"] else el["offset"], "i", None))
             elif k == "downcast":
-                e = ("variant", e, el.get("variant") or str(el["idx"]))
+                vn = el.get("variant") or str(el["idx"])
+                if e[0] == "agg" and isinstance(e[1], str) and e[1].rsplit("::", 1)[-1] == vn and not e[1].startswith("closure:"):
+                    pass      # (Some{0: x} as Some) is the literal itself; its fields are read next
+                elif vn == "Continue" and e[0] == "call" and (e[1].endswith("Try>::branch") or e[1].endswith("Try::branch")) and len(e[2]) == 1 \
+                        and e[2][0][0] == "agg" and isinstance(e[2][0][1], str) and e[2][0][1].rsplit("::", 1)[-1] in ("Ok", "Some") and len(e[2][0][2]) == 1:
+                    # (Ok(x)? as Continue).0 is x
+                    e = ("agg", "std::ops::ControlFlow::Continue", (e[2][0][2][0],), ("0",))
+                else:
+                    e = ("variant", e, vn)
             elif k == "subslice":
                 e = ("subslice", e, el["from"], el["to"], el["from_end"])
             else:
